@@ -65,9 +65,9 @@ def run(chk):
   structs = []
   for i in range(1500 if thorough else 200):
     nf = rng.randint(1, 5)
-    fields = [['f%d' % j, rng.choice(['data', 'data', 'static'])] for j in range(nf)]
+    fields = [['f%d' % j, rng.choice(['data', 'data', 'static']), rng.choice([None, None, 'shared', 'shared', 'own'])] for j in range(nf)]
     structs.append({'fields': fields, 'base': rng.choice(['dataclass', 'pytreenode']),
-                    'values': [rng.randint(-5, 5) if k == 'data' else 's%d' % rng.randint(0, 3) for _, k in fields],
+                    'values': [rng.randint(-5, 5) if f[1] == 'data' else 's%d' % rng.randint(0, 3) for f in fields],
                     'replace': rng.randint(0, 10)})
   payloads[0]['structs'] = structs
   results = common.run_impl_parallel('impl_c15.py', payloads, workers=W)
@@ -105,26 +105,26 @@ Definition chk (c : list op * list bool * nat * list obs * list obs) : bool :=
                   'objects held afterwards); C15_frozen_never_changes no longer transfers', {'seed': seqs[i]['seed'], 'nsteps': nsteps, 'ops': seqs[i]['ops'], 'final': seqs[i]['final']})
   chk.cov['traces_validated_against_impl'] = len(coq)
   # ---- struct dataclasses: implementation oracles (the model side is Props/C15 struct theorems)
-  keys_true = ['roundtrip_same_class', 'roundtrip_equal', 'replace_new_instance', 'replace_others_same', 'replace_named_changed', 'replace_old_intact',
+  keys_true = ['user_metadata_untouched', 'roundtrip_same_class', 'roundtrip_equal', 'replace_new_instance', 'replace_others_same', 'replace_named_changed', 'replace_old_intact',
                'treedef_ignores_data', 'treedef_sees_static', 'jit_no_retrace_on_data', 'jit_retrace_on_static', 'jit_same_class', 'tree_map_same_class',
                'vmap_same_class', 'grad_same_class']
   scoq = []
   for c, r in zip(structs, results[0]['structs']):
-    chk.count({'struct': c}, len({k for _, k in c['fields']}) == 2)
+    chk.count({'struct': c}, len({f[1] for f in c['fields']}) == 2)
     if 'err' in r:
       chk.violation('oracle', 'struct dataclass case raised: %s' % r['err'], {'case': c})
       continue
     o = r['ok']
     if o['frozen'] is not True:
       chk.violation('oracle', 'assigning a field of a struct dataclass did not raise FrozenInstanceError', {'case': c, 'observed': o['frozen']})
-    want_leaves = [float(v) for (n, k), v in zip(c['fields'], c['values']) if k == 'data']
+    want_leaves = [float(v) for f, v in zip(c['fields'], c['values']) if f[1] == 'data']
     if o['leaves'] != want_leaves:
       chk.violation('oracle', 'pytree leaves are not exactly the data fields in field order', {'case': c, 'leaves': o['leaves']})
     for k in keys_true:
       if k in o and o[k] is not True:
         chk.violation('oracle', 'struct dataclass: %s is false' % k, {'case': c, 'observed': o})
-    scoq.append(cpair(clist([cbool(k == 'data') for _, k in c['fields']]),
-                      clist([cN(v + 10) if k == 'data' else cN(100 + int(v[1:])) for (_, k), v in zip(c['fields'], c['values'])]),
+    scoq.append(cpair(clist([cbool(f[1] == 'data') for f in c['fields']]),
+                      clist([cN(v + 10) if f[1] == 'data' else cN(100 + int(v[1:])) for f, v in zip(c['fields'], c['values'])]),
                       clist([cN(int(x) + 10) for x in o['leaves']])))
   shdr = 'From Flaxm Require Import Lib.Harness Model.Struct.\n' + '''
 Definition chk (c : list bool * list N * list N) : bool :=
